@@ -451,6 +451,10 @@ fn gen_cases(rng: &mut Rng, tier: Tier) -> Vec<Value> {
     gen_hier(rng, &mut cases, 500 * scale, if thorough { 20 } else { 14 });
     // last, so that the streams above stay what they were
     gen_lkh_pts(rng, &mut cases, 600 * scale, if thorough { 14 } else { 9 });
+    // grid instances with repeated addresses, searched in bulk inside one case each (evaluation budget instead of a clock)
+    for _ in 0..(8 * scale) {
+        cases.push(json!({"k": "lkh_grid", "seed": rng.next() % 1_000_000_007, "count": 25_000, "side": if rng.chance(1, 3) { 5 } else { 4 }}));
+    }
     cases
 }
 
@@ -509,6 +513,95 @@ impl AdjacencySpec for EuclidAdjacency {
 }
 
 static TIMEOUTS: AtomicUsize = AtomicUsize::new(0);
+
+/// an adjacency that counts cost evaluations and gives up (panics) beyond a budget: non-termination shows without a clock
+struct BudgetAdjacency {
+    inner: EuclidAdjacency,
+    used: AtomicUsize,
+    budget: usize,
+}
+
+impl AdjacencySpec for BudgetAdjacency {
+    fn cost(&self, edge: &Edge) -> Cost {
+        if self.used.fetch_add(1, Ordering::Relaxed) > self.budget {
+            panic!("evaluation budget exceeded");
+        }
+        self.inner.cost(edge)
+    }
+
+    fn neighbours(&self, node: Node) -> &[Node] {
+        self.inner.neighbours(node)
+    }
+}
+
+/// `count` small instances on a `side` x `side` integer grid with one or two stops at an address visited already (many equal
+/// distances, equal-cost tours reachable from one another): each is searched under an evaluation budget a thousand times
+/// above what such an instance needs; the contract (permutation, start, cost) is checked on the spot
+fn exec_lkh_grid(case: &Value) -> Value {
+    let seed = case["seed"].as_u64().unwrap();
+    let count = case["count"].as_u64().unwrap() as usize;
+    let side = case["side"].as_i64().unwrap();
+    let handle = std::thread::Builder::new()
+        .stack_size(64 * 1024 * 1024)
+        .spawn(move || {
+            let mut rng = Rng::new(seed);
+            let (mut exceeded, mut broken) = (vec![], vec![]);
+            let mut n_exceeded = 0usize;
+            for _ in 0..count {
+                let n = rng.usize(5, 9);
+                let mut pts: Vec<(i64, i64)> = vec![];
+                let dups = rng.usize(1, 2);
+                while pts.len() < n {
+                    if pts.len() + dups >= n && !pts.is_empty() {
+                        pts.push(*rng.pick(&pts));
+                    } else {
+                        pts.push((rng.range(0, side - 1), rng.range(0, side - 1)));
+                    }
+                }
+                if rng.chance(1, 2) {
+                    rng.shuffle(&mut pts);
+                }
+                let path: Vec<usize> = (0..n).collect();
+                let sq = |a: (i64, i64), b: (i64, i64)| (a.0 - b.0) * (a.0 - b.0) + (a.1 - b.1) * (a.1 - b.1);
+                let nb: Vec<Vec<usize>> = (0..n)
+                    .map(|i| {
+                        let mut others: Vec<usize> = (0..n).filter(|&j| j != i).collect();
+                        others.sort_by_key(|&j| (sq(pts[i], pts[j]), j));
+                        others
+                    })
+                    .collect();
+                let c: Vec<Vec<f64>> = pts.iter().map(|a| pts.iter().map(|b| (sq(*a, *b) as f64).sqrt()).collect()).collect();
+                let closed = |q: &[usize]| -> f64 { (0..q.len()).map(|i| c[q[i]][q[(i + 1) % q.len()]]).sum() };
+                let adjacency =
+                    BudgetAdjacency { inner: EuclidAdjacency { c: c.clone(), nb }, used: AtomicUsize::new(0), budget: 2_000_000 };
+                let p2 = path.clone();
+                let res = std::panic::catch_unwind(std::panic::AssertUnwindSafe(|| lkh_optimize(adjacency, p2)));
+                let inst = json!({"pts": pts.iter().map(|p| json!([p.0, p.1])).collect::<Vec<_>>(), "path": path});
+                match res {
+                    Err(_) => {
+                        n_exceeded += 1;
+                        if exceeded.len() < 3 {
+                            exceeded.push(inst);
+                        }
+                    }
+                    Ok(paths) => {
+                        let ok = !paths.is_empty()
+                            && paths.iter().all(|q| {
+                                let mut sorted = q.clone();
+                                sorted.sort();
+                                sorted == path && q.first() == path.first() && closed(q) <= closed(&path) + 1e-6
+                            });
+                        if !ok && broken.len() < 3 {
+                            broken.push(inst);
+                        }
+                    }
+                }
+            }
+            json!({"instances": count, "exceeded_count": n_exceeded, "exceeded": exceeded, "contract_broken": broken})
+        })
+        .unwrap();
+    handle.join().unwrap_or_else(|_| json!({"panic": "grid search thread panicked"}))
+}
 
 fn exec_lkh_pts(case: &Value) -> Value {
     let pts = matrix(&case["pts"]);
@@ -573,6 +666,7 @@ fn exec(case: &Value) -> Value {
         }
         "lkh" => exec_lkh(case),
         "lkh_pts" => exec_lkh_pts(case),
+        "lkh_grid" => exec_lkh_grid(case),
         "dbscan" => {
             let n = case["n"].as_u64().unwrap() as usize;
             let ids: Vec<usize> = (0..n).collect();
